@@ -141,18 +141,19 @@ example : initCounts recSchema ['R'] = .ok [4, 1, 3, 0] :=
 
 /-! ### print -> parse
 
-  FULL STATEMENT (false on the code as written, ONLY because of schemas without a root):
+  FULL STATEMENT:
     `∀ t σ, parse t = .ok σ → ∃ σ', parse (prettyPrint σ) = .ok σ' ∧ σ'.Equiv σ
         ∧ ∀ r ∈ σ.rootNames, wire σ' r = wire σ r`
-  (`PrintParse`, refuted by `print_parse_false_empty`: the recorded finding
-  `print-empty-schema-unparsable`). With the one excluding hypothesis `σ.PrintSafe` (at least one
-  struct is left after pruning) it is a THEOREM for every schema in the image of `parse`
-  (`print_parse`, `print_parse_safe`): the re-parsed schema is exactly `σ.norm`, the
+  (`PrintParse`). It is a THEOREM for every schema in the image of `parse`, without any excluding
+  hypothesis (`print_parse`, `print_parse_safe`): the re-parsed schema is exactly `σ.norm`, the
   definitions of `σ` sorted by name.
 
   The three PrettyPrint defects recorded earlier (`print-array-elem-dict`, `print-enum-as-uint64`,
   `print-enum-dict-unparsable`) were repaired by commit e46c0b0; `Stef/SchemaPrint.lean`
-  transcribes the repaired printer.
+  transcribes the repaired printer. The last exclusion (`print-empty-schema-unparsable`: without
+  a root everything is pruned, and the printed form `package a` of the empty schema was rejected)
+  was repaired in the parser: the declaration loop of `Parser.Parse` is now `for token != EOF`, so
+  a text that consists of the package clause only is accepted (`print_parse_empty`).
 
   Proof structure (Stef/Proofs/Print*.lean):
     PrintInv      every accepted schema satisfies `PP` (names are lexer identifiers and not
@@ -170,11 +171,6 @@ def PrintParse : Prop :=
   ∀ (t : List Char) (σ : Schema), parse t = .ok σ →
     ∃ σ', parse (prettyPrint σ) = .ok σ' ∧ σ'.Equiv σ ∧ ∀ r ∈ σ.rootNames, wire σ' r = wire σ r
 
-/-- the property restricted to schemas that keep at least one struct (proved: `print_parse_safe`). -/
-def PrintParseSafe : Prop :=
-  ∀ (t : List Char) (σ : Schema), parse t = .ok σ → σ.PrintSafe →
-    ∃ σ', parse (prettyPrint σ) = .ok σ' ∧ σ'.Equiv σ ∧ ∀ r ∈ σ.rootNames, wire σ' r = wire σ r
-
 /-- The explicit well-formedness predicate behind the round trip: printable (`PP`), well-formed
     (the conclusion of C12), and recursion flags / reachability settled (re-running the two
     post-passes of `Parse` on the name-sorted schema is the identity). -/
@@ -189,32 +185,30 @@ theorem parse_printWF (t : List Char) (σ : Schema) (h : parse t = .ok σ) : Pri
   ⟨parse_pp h, Stef.Props.C12.parse_ok_wf t σ h, (parseTokens_fixpoint h).1,
     (parseTokens_fixpoint h).2⟩
 
-theorem sample_safe : sampleSchema.PrintSafe := by unfold Schema.PrintSafe; decide +kernel
-
 /-- non-vacuity: the sample of C12 (enum, dictionaries on a struct, a field, a multimap key, an
     optional field, arrays, recursion, a oneof, two roots, a pruned struct). -/
 example : PrintWF sampleSchema := parse_printWF _ _ sample_parsed
 
-/-- For every schema satisfying `PrintWF` that has at least one struct, the printed text is
+/-- For every schema satisfying `PrintWF` (the empty schema included), the printed text is
     accepted and parses to the same definitions, sorted by name. -/
-theorem print_parse_wf (σ : Schema) (hw : PrintWF σ) (hs : σ.PrintSafe) :
+theorem print_parse_wf (σ : Schema) (hw : PrintWF σ) :
     parse (prettyPrint σ) = .ok σ.norm :=
-  parse_print_of_wf hw.pp hw.wf hs hw.marks_settled hw.prune_settled
+  parse_print_of_wf hw.pp hw.wf hw.marks_settled hw.prune_settled
 
 example : parse (prettyPrint sampleSchema) = .ok sampleSchema.norm :=
-  print_parse_wf _ (parse_printWF _ _ sample_parsed) sample_safe
+  print_parse_wf _ (parse_printWF _ _ sample_parsed)
 
-/-- PRINT -> PARSE ROUND TRIP: for every schema `σ` returned by `parse` that keeps at least one
-    struct, `parse (prettyPrint σ)` succeeds and returns exactly `σ` with its definitions sorted
+/-- PRINT -> PARSE ROUND TRIP: for every schema `σ` returned by `parse`,
+    `parse (prettyPrint σ)` succeeds and returns exactly `σ` with its definitions sorted
     by name (same types, field order, optional flags, dictionary assignments, root and recursion
     flags). -/
-theorem print_parse (t : List Char) (σ : Schema) (h : parse t = .ok σ) (hs : σ.PrintSafe) :
+theorem print_parse (t : List Char) (σ : Schema) (h : parse t = .ok σ) :
     parse (prettyPrint σ) = .ok σ.norm :=
-  print_parse_wf σ (parse_printWF t σ h) hs
+  print_parse_wf σ (parse_printWF t σ h)
 
 /-- non-vacuity: the sample of C12; its re-parsed form differs from it (definition order). -/
 example : parse (prettyPrint sampleSchema) = .ok sampleSchema.norm :=
-  print_parse _ _ sample_parsed sample_safe
+  print_parse _ _ sample_parsed
 
 example : sampleSchema.norm ≠ sampleSchema := by decide +kernel
 
@@ -235,21 +229,22 @@ theorem print_parse_partial (t : List Char) (σ σ' : Schema) (h : parse t = .ok
     (Stef.Props.C12.parse_ok_wf _ σ' h').top_unique r
 
 example : wire sampleSchema.norm ['R'] = wire sampleSchema ['R'] :=
-  print_parse_partial _ _ _ sample_parsed (print_parse _ _ sample_parsed sample_safe)
+  print_parse_partial _ _ _ sample_parsed (print_parse _ _ sample_parsed)
     (norm_equiv_parsed _ _ sample_parsed) _
 
-/-- The property C13 (print/parse half) for every accepted schema that keeps at least one
-    struct: the printed text is accepted, the result is equivalent, and the wire schema of
-    every root is the same. -/
-theorem print_parse_safe : PrintParseSafe := by
-  intro t σ h hs
-  have h' := print_parse t σ h hs
+/-- The property C13 (print/parse half), the FULL statement, for every accepted schema: the
+    printed text is accepted, the result is equivalent, and the wire schema of every root is the
+    same. (The name dates from when the statement needed the excluding hypothesis "at least one
+    struct is left after pruning"; it no longer has one.) -/
+theorem print_parse_safe : PrintParse := by
+  intro t σ h
+  have h' := print_parse t σ h
   have he := norm_equiv_parsed t σ h
   exact ⟨σ.norm, h', he, fun r _ => print_parse_partial t σ σ.norm h h' he r⟩
 
 example : ∃ σ', parse (prettyPrint sampleSchema) = .ok σ' ∧ σ'.Equiv sampleSchema ∧
     ∀ r ∈ sampleSchema.rootNames, wire σ' r = wire sampleSchema r :=
-  print_parse_safe _ _ sample_parsed sample_safe
+  print_parse_safe _ _ sample_parsed
 
 example : sampleSchema.rootNames = [['R'], ['R', '2']] := by decide +kernel
 
@@ -284,18 +279,29 @@ example : roundTrips "package a struct R root { F E G []E } enum E { X = 1 }".to
 example : roundTrips "package a struct R root { F E dict(D) } enum E { X = 1 }".toList = true := by
   decide +kernel
 
-/-- `print-empty-schema-unparsable`: without a root everything is pruned; `package a` alone is
-    rejected by the parser. This is the ONLY obstruction (`print_parse_safe`). -/
+/-- Former witness of `print-empty-schema-unparsable`: without a root everything is pruned, the
+    accepted schema is the empty one. -/
 def wNoRoot : List Char := "package a struct R { F int64 }".toList
 
-theorem print_parse_false_empty : ¬ PrintParse := by
-  intro h
-  obtain ⟨σ', h1, _⟩ := h wNoRoot { pkg := [['a']] } (by decide +kernel)
-  have h3 : parse (prettyPrint { pkg := [['a']] }) = .error ⟨9, 1, 10⟩ .expectedDef := by decide +kernel
-  rw [h3] at h1
-  cases h1
+theorem noRoot_parsed : parse wNoRoot = .ok { pkg := [['a']] } := by decide +kernel
 
-/-- the excluded class is "no struct left" (the result of `parse wNoRoot`). -/
-example : ¬ (Schema.PrintSafe { pkg := [['a']] }) := by simp [Schema.PrintSafe]
+/-- The printed form of the empty schema is its package clause ... -/
+theorem print_empty : prettyPrint { pkg := [['a']] } = "package a".toList := by decide +kernel
+
+/-- ... and it parses to the empty schema (it used to be rejected with "expected struct, oneof or
+    multimap"): the round trip holds for the class that was excluded before. -/
+theorem print_parse_empty : parse (prettyPrint { pkg := [['a']] }) = .ok { pkg := [['a']] } := by
+  decide +kernel
+
+/-- non-vacuity of `print_parse` / `print_parse_safe` on that class: an accepted text whose schema
+    has no struct left, through the general theorems. -/
+example : parse (prettyPrint { pkg := [['a']] }) = .ok (Schema.norm { pkg := [['a']] }) :=
+  print_parse _ _ noRoot_parsed
+
+example : ∃ σ', parse (prettyPrint { pkg := [['a']] }) = .ok σ' ∧ σ'.Equiv { pkg := [['a']] } ∧
+    ∀ r ∈ Schema.rootNames { pkg := [['a']] }, wire σ' r = wire { pkg := [['a']] } r :=
+  print_parse_safe _ _ noRoot_parsed
+
+example : (({ pkg := [['a']] } : Schema).structs = []) := rfl
 
 end Stef.Props.C13
